@@ -22,7 +22,8 @@ ENDINGS = ["close", "rst", "halfclose", "midline", "badutf8"]
 
 class Gen:
     def __init__(self, seed, world, weights=None, max_clients=5, nicks=None, chans=None,
-                 hostile_masks=True, endings=None, server_password=None, multi_prefix_rate=0.3):
+                 hostile_masks=True, endings=None, server_password=None, multi_prefix_rate=0.3,
+                 mode_weights=None):
         self.r = random.Random(seed)
         self.w = world
         self.weights = dict(DEFAULT_WEIGHTS)
@@ -35,6 +36,9 @@ class Gen:
         self.endings = endings or ENDINGS
         self.server_password = server_password
         self.mp_rate = multi_prefix_rate
+        self.mode_weights = dict(zip("imtnsklbeIqaohv", [3, 3, 3, 3, 3, 3, 3, 4, 3, 3, 2, 2, 4, 3, 4]))
+        if mode_weights:
+            self.mode_weights.update(mode_weights)
         self.counter = 0
         self.used_nicks = []
 
@@ -225,7 +229,7 @@ class Gen:
                 if s != sign or r.random() < 0.2:
                     ms += s
                     sign = s
-                l = r.choices("imtnsklbeIqaohv", [3, 3, 3, 3, 3, 3, 3, 4, 3, 3, 2, 2, 4, 3, 4])[0]
+                l = r.choices(list(self.mode_weights), list(self.mode_weights.values()))[0]
                 if l in "beI":
                     lst = {"b": ch.ban, "e": ch.exc, "I": ch.invex}[l] if ch else set()
                     if sign == "-" and lst and r.random() < 0.8:
